@@ -58,7 +58,18 @@ def run(ctx):
             c.no_progress = b == 'nop'; c.bsize = MB if b == 'nop' else b
             c.driver = ['parfile', 'parblock'][i % 2]; c.workers = rng.choice([1, 2, 4, 16]); c.reflink = rng.choice(['auto', 'never'])
             c.prior = 'absent'; c.plan = []; c.extra = []; c.tag = 'gen'
-            if rng.random() < 0.3 or (i < 6 and c.driver == 'parblock'):
+            if i in (10, 11, 12) or (rng.random() < 0.15 and c.driver == 'parfile'):
+                # another file system: every copy_file_range is refused (EXDEV) and the user-space loops copy each data segment —
+                # exactly the segment, not the hole after it
+                c.driver = 'parfile'; c.plan = [f'fail copy_file_range * * {scen.ERRNO["EXDEV"]}']
+                if i in (10, 11, 12):
+                    data = sum(([('seg', K, 40 + q), ('hole', rng.choice([1, 2]) * MB)] for q in range(12)), []); c.files = [('sp', data)]; c.no_progress = i == 12; c.bsize = [4096, MB, MB][i - 10]
+            if i in (6, 7, 8, 9):
+                # corpus: an UNBOUNDED block size (--no-progress) or one larger than the gaps must not merge neighbouring data
+                # extents across the holes between them
+                c.driver = 'parblock'; c.no_progress = i % 2 == 0; c.bsize = 64 * MB
+                data = [('seg', 2 * K, 31), ('hole', 3 * MB), ('seg', K, 32), ('hole', 8 * MB + K), ('seg', 3 * K, 33), ('hole', MB)]; c.files = [('sp', data)]
+            if not c.plan and (rng.random() < 0.3 or (i < 6 and c.driver == 'parblock')):
                 # a genuinely short kernel copy inside a data extent: the retry must ask for the REMAINDER only — a block that runs past
                 # the end of its extent writes the following hole out as zeros (allocation, not content, shows it)
                 c.plan = [f'clamp copy_file_range D/sp * {rng.choice([1, 2, 3, 5])} {rng.choice([1000, 40000, 700000])}']
